@@ -43,7 +43,7 @@ CLAIMED = {
                      'stubbed; glob semantics of the wax crate and the "same pipeline with that rule deleted" equivalence are not covered)'),
     'C08': ('proof', 'value-level kernel of the static evaluator (truthiness, and/or folding, raw equality over all doubles, string '
                      'order, length, maybe_metatable, multi-value test; folding of + - < <= > >= on number constants over all doubles, ^ over all doubles '
-                     'against an uninterpreted libm pow, * / // % on enumerated operands) against Lua 5.1 value semantics; a definite answer must be '
+                     'against an uninterpreted libm pow, * / // % on enumerated operands; if-expression folding and its side-effect test against an abstract relation for the recursive callees) against Lua 5.1 value semantics; a definite answer must be '
                      'the real one'),
 }
 
